@@ -703,6 +703,7 @@ class Verifier(HeapMaps):
             rep["reason"] = "requires clauses are unsatisfiable"
         obs = [self.obligations[k] for k in self.ob_order]
         failed_clauses = {}
+        big_retries = 0
         for ob in obs:
             ckey = (ob.kind, ob.info.get("clause_text") or ob.info.get("clause"))
             if ckey[1] and failed_clauses.get(ckey, 0) >= 2:
@@ -719,6 +720,15 @@ class Verifier(HeapMaps):
                     ob.time += first_time
                     if ob.result == "discharged":
                         ob.reason = ((getattr(ob, "reason", "") or "") + " (second attempt with 4x budget)").strip()
+                    elif ob.result == "undecided" and big_retries < 2 and "unsupported" not in (getattr(ob, "reason", "") or ""):
+                        # still open: the solvers are erratic on a few queries (the same query takes 3 s in one run and 50 s in another).  At most two
+                        # obligations per function get a last attempt with twelve times the budget, so that an undecidable query cannot multiply the run time
+                        big_retries += 1
+                        t_ = ob.time
+                        self.discharge(ob, min(timeout_ms * 12, 240000))
+                        ob.time += t_
+                        if ob.result == "discharged":
+                            ob.reason = ((getattr(ob, "reason", "") or "") + " (third attempt with 12x budget)").strip()
                 if ob.result == "failed" and ckey[1]:
                     failed_clauses[ckey] = failed_clauses.get(ckey, 0) + 1
             if os.environ.get("PYVC_TRACE"):
